@@ -552,7 +552,7 @@ def check_description(inp) -> list:
 
 def gen_description_inputs(rng, n, max_N=(6, 4, 3)):
     for k in range(n):
-        order = (2, 3, 2, 3, 4)[k % 5]
+        order = (2, 3, 2, 3, 4)[(k + k // 5) % 5]      # every kind meets every order
         cr = crystal(rng, max_N=max_N[order - 2])
         kind = ["permute", "shift", "wrap", "unimodular", "rotate"][k % 5]
         inp = {"crystal": cr, "orders": [order], "kind": kind, "seed": rng.randrange(10 ** 6)}
